@@ -2,6 +2,16 @@
 import json, glob, jsonschema, sys
 jsonschema.validate(json.load(open('/verif/MANIFEST.json')), json.load(open('/root/.vp/MANIFEST.schema.json')))
 s = json.load(open('/root/.vp/EVIDENCE.schema.json'))
+bad = []
 for f in sorted(glob.glob('/verif/evidence/*.json')):
-    jsonschema.validate(json.load(open(f)), s)
+    e = json.load(open(f))
+    jsonschema.validate(e, s)
+    # evidence kept in the repository must describe a run on the unchanged tree: no violation, no disagreement
+    c = e.get('coverage', {})
+    if e.get('violations', 0) or c.get('correspondence', {}).get('disagreements', 0) \
+            or c.get('obligations') != c.get('discharged'):
+        bad.append(f)
+if bad:
+    print('evidence files that do not describe a quiet run on the unchanged tree: ' + ' '.join(bad))
+    sys.exit(1)
 print('manifest + %d evidence files valid' % len(glob.glob('/verif/evidence/*.json')))
